@@ -800,8 +800,38 @@ def _reshape(a, shape):
         tail = tuple(int(s) for s in shape[1:])
         if int(rnp.prod(tail, dtype=int)) == int(rnp.prod(a.row.shape, dtype=int)):
             return a._new(a.row.reshape(tail))
-        raise Unsupported("reshape that merges the symbolic axis with a concrete factor")
+        total = int(rnp.prod(a.row.shape, dtype=int))
+        tsz = int(rnp.prod(tail, dtype=int))
+        if tsz > 0 and total % tsz == 0:
+            # (N, total) -> (k*N, tail): new row j is the chunk j mod k of old row j div k
+            k = total // tsz
+            flat = _plain(a.row).reshape(-1)
+            N2 = z3.simplify(a.N * k)
+            j = index_for(N2)
+            out = rnp.empty((tsz,), dtype=object)
+            for c in range(tsz):
+                e = None
+                for r in range(k - 1, -1, -1):
+                    cand = _subst_elem(flat[r * tsz + c], a.idx, j / k)
+                    if e is None:
+                        e = cand
+                    else:
+                        e = core.ite(core._mkbool(j % k == r), cand, e)
+                out[c] = e
+            return LArr(N2, j, wrap(out.reshape(tail), a.ldt), 0, a.ldt)
+        raise Unsupported("reshape that merges the symbolic axis with a non-dividing factor")
     raise Unsupported("reshape %r of LArr" % (shape,))
+
+
+def _lsort(a, axis=-1, **kw):
+    """numpy.sort along a CONCRETE axis of a symbolic-length array (row-local)"""
+    if not isinstance(a, LArr):
+        raise Unsupported("sort")
+    ax = axis if axis >= 0 else a.ndim + axis
+    if ax == a.axis:
+        raise Unsupported("sort along the symbolic axis")
+    rax = ax - (1 if ax > a.axis else 0)
+    return a._new(symnp._sort(a.row.copy(), axis=rax))
 
 
 # ----------------------------------------------------------------------------- numpy functions on LArr
@@ -940,6 +970,7 @@ LHANDLED = {
     rnp.shape: lambda a: a.shape,
     rnp.ndim: lambda a: a.ndim,
     rnp.abs: lambda a: abs(a),
+    rnp.sort: _lsort,
 }
 
 
